@@ -106,7 +106,9 @@ impl LintFix {
             EditType::CreateBefore => {
                 anchor_slice.start.saturating_sub(1)..anchor_slice.start + adjust_boundary
             }
-            EditType::CreateAfter => anchor_slice.end - adjust_boundary..anchor_slice.end + 1,
+            EditType::CreateAfter => {
+                anchor_slice.end.saturating_sub(adjust_boundary)..anchor_slice.end + 1
+            }
             EditType::Replace => {
                 let pos = self.anchor.get_position_marker().unwrap();
                 if pos.source_slice.start == pos.source_slice.end {
